@@ -86,6 +86,23 @@ C03 ==
       /\ (Has(R.builds[b], "ts_syntax") => R.builds[b].ts_syntax)
       /\ (HasRun(R, b, "wasm") => AllowedEnd(ClassOf(R, b, "wasm")))
       /\ (HasRun(R, b, "ts") => AllowedEnd(ClassOf(R, b, "ts")))
+\* ---- C12: results depend only on the sources --------------------------------------------------
+\* a record carries `reps`: the same program compiled and run again in fresh processes (fresh hash
+\* seeds, different worker-thread counts, module insertion order permuted)
+SameOutcome(x, y) ==
+  /\ x.front = y.front
+  /\ (Has(x, "rendered") <=> Has(y, "rendered"))
+  /\ (Has(x, "rendered") => x.rendered = y.rendered)          \* diagnostics text, byte for byte
+  /\ BuildNames(x) = BuildNames(y)
+  /\ \A b \in BuildNames(x) :
+        /\ x.builds[b].status = y.builds[b].status
+        /\ (Ok(x, b) /\ Ok(y, b)) =>
+             \A k \in {"wasm", "ts"} :
+               /\ (HasRun(x, b, k) <=> HasRun(y, b, k))
+               /\ (HasRun(x, b, k) /\ ~ImplDefined(x, b) /\ ~ImplDefined(y, b)) =>
+                    (RunOf(x, b, k).out = RunOf(y, b, k).out /\ ClassOf(x, b, k) = ClassOf(y, b, k))
+C12 == (l > 1 /\ Has(R, "reps")) => \A i \in 1..Len(R.reps) : SameOutcome(R.reps[1], R.reps[i])
+
 \* the front end itself must not crash on any program offered (reported under C03 for accepted-looking inputs)
 FrontNoCrash == l > 1 => R.front # "crashed"
 =============================================================================
